@@ -160,6 +160,8 @@ where
         let mut events = vec![EpollEvent::new(EventSet::empty(), 0); EPOLL_EVENTS_LEN];
 
         'epoll: loop {
+            #[cfg(feature = "verif-hooks")]
+            vhost::vhost_user::verif_hooks::hold("worker.wait", self.thread_id as u64);
             let num_events = match self.epoll.wait(-1, &mut events[..]) {
                 Ok(res) => res,
                 Err(e) => {
@@ -189,6 +191,8 @@ where
 
                 let ev_type = event.data() as u16;
 
+                #[cfg(feature = "verif-hooks")]
+                vhost::vhost_user::verif_hooks::hold("worker.woken", u64::from(ev_type));
                 // handle_event() returns true if an event is received from the exit event fd.
                 if self.handle_event(ev_type, evset)? {
                     break 'epoll;
@@ -206,9 +210,13 @@ where
 
         if (device_event as usize) < self.vrings.len() {
             let vring = &self.vrings[device_event as usize];
+            #[cfg(feature = "verif-hooks")]
+            vhost::vhost_user::verif_hooks::hold("worker.pre_read", u64::from(device_event));
             let enabled = vring
                 .read_kick()
                 .map_err(VringEpollError::HandleEventReadKick)?;
+            #[cfg(feature = "verif-hooks")]
+            vhost::vhost_user::verif_hooks::hold("worker.read_kick", u64::from(device_event));
 
             // If the vring is not enabled, it should not be processed.
             if !enabled {
@@ -216,6 +224,8 @@ where
             }
         }
 
+        #[cfg(feature = "verif-hooks")]
+        vhost::vhost_user::verif_hooks::hold("worker.dispatch", u64::from(device_event));
         self.backend
             .handle_event(device_event, evset, &self.vrings, self.thread_id)
             .map_err(VringEpollError::HandleEventBackendHandling)?;
